@@ -150,6 +150,11 @@ def mk_exc(value, shape, casing, where, status=429):
         h = {key: value}
     elif shape == "dict+noise":
         h = {"Content-Type": "x", key: value, "X-Other": 5}
+    elif shape == "dict+date":
+        # what a real response carries next to Retry-After: the server's own Date (from a cache or a skewed clock: not "now")
+        h = {"Date": "Wed, 21 Oct 2015 07:28:00 GMT", "Content-Type": "x", key: value, "Content-Length": "0"}
+    elif shape == "pairs+date":
+        h = [("date", "Wed, 21 Oct 2015 07:28:00 GMT"), (key, value), ("Date", "Thu, 01 Jan 2099 00:00:00 GMT")]
     elif shape == "mapsub":
         h = MapSub({key: value})
     elif shape == "getonly":
@@ -184,7 +189,7 @@ def mk_exc(value, shape, casing, where, status=429):
     else:
         e.response = RESP_KINDS[(len(casing) + len(shape) + len(str(type(value)))) % len(RESP_KINDS)](h)
     # can the lookup be expected to find the value?
-    if shape in ("dict", "dict+noise", "mapsub", "getitems", "pairs", "tuplepairs", "itemsview", "iterable", "setpairs"):
+    if shape in ("dict", "dict+noise", "dict+date", "pairs+date", "mapsub", "getitems", "pairs", "tuplepairs", "itemsview", "iterable", "setpairs"):
         found = "yes"
     elif shape == "getonly":
         found = "yes" if casing in ("Retry-After", "retry-after") else "maybe"
@@ -193,7 +198,7 @@ def mk_exc(value, shape, casing, where, status=429):
     return e, found
 
 
-SHAPES = ["dict", "dict+noise", "mapsub", "getonly", "getitems", "pairs", "tuplepairs", "nonpairs", "raisingget", "itemsview", "iterable", "setpairs", "raisingiter", "keyerrorseq"]
+SHAPES = ["dict", "dict+noise", "dict+date", "pairs+date", "mapsub", "getonly", "getitems", "pairs", "tuplepairs", "nonpairs", "raisingget", "itemsview", "iterable", "setpairs", "raisingiter", "keyerrorseq"]
 
 
 def classify_value(v):
